@@ -20,7 +20,7 @@ RULE = (
     "add_table incl. x/y, add_sheet, renames, merges, styles incl. background images, border strokes, captions, number/currency/percentage/"
     "scientific/base/fraction/datetime formats, tickbox/rating/slider/stepper/popup control cells, custom number/text/datetime formats, formulas set through cell.formula alone or on control cells) on new "
     "documents (shapes incl. 255/256/257/512 rows and 256/257 columns) and on loaded fixtures, with repeated saves, saves after an injected "
-    "failed save (ENOSPC/EIO), save->reopen->save chains, file and package slots. An independent validator (own unzip + IWA codec + generated "
+    "failed save (ENOSPC/EIO; permanent - the handle is dead - or transient - the handle stays usable for whoever still holds it), retries to the same target left as the failed attempt left it, often after the document shrank (a bulky text written before and removed after the failed save), save->reopen->save chains, file and package slots. An independent validator (own unzip + IWA codec + generated "
     "schemas; 30-150 ms) runs on EVERY file a save returned normally for: reopens; references of every added or rewritten object (body and "
     "archive-header lists) resolve in the package or were already dangling in the source; added identifiers unique and <= last_object_identifier; "
     "every added .iwa member has exactly one ComponentInfo naming an object it holds; new external references of the metadata resolve; per "
@@ -105,10 +105,36 @@ def emit_step(g, kind: str, d: int, fault_arm: bool) -> None:
                 "name": rng.choice([None, "CF " + str(rng.randrange(5))])})
     elif kind == "save":
         o = {"op": "save", "d": d, "slot": rng.choice(ALL_SLOTS)}
-        if fault_arm and rng.random() < 0.35:
+        if fault_arm and rng.random() < 0.5:
             o["fault"] = gen_fault(rng)
             o["fault"]["kind"] = "write_error"
+            o["fault"].pop("lost", None)
+            o["fault"]["transient"] = rng.random() < 0.5
+        if rng.random() < 0.5:
+            o["wipe"] = False
+        ballast = None
+        if o.get("fault") and rng.random() < 0.5:
+            # a bulky, incompressible text that is removed again after the failed save: the retry then writes a file
+            # that is SHORTER than the point the failed attempt had reached
+            ballast = (g.index(tm.nrows), g.index(tm.ncols))
+            text = "".join(rng.choice("abcdefghijklmnopqrstuvwxyz0123456789 ") for _ in range(rng.choice([3000, 12000, 40000])))
+            g.emit({"op": "write", "d": d, "s": s, "t": t, "r": ballast[0], "c": ballast[1], "v": V.enc(text)})
+            o["fault"]["cls"] = "frac"
+            o["fault"]["frac"] = 0.55 + 0.45 * rng.random()
         g.emit(o)
+        if ballast is not None:
+            g.emit({"op": "write", "d": d, "s": s, "t": t, "r": ballast[0], "c": ballast[1], "v": V.enc("")})
+        if o.get("fault") and (ballast is not None or rng.random() < 0.6):
+            # retry after the failed save: often after the document SHRANK (long texts replaced by short ones, rows
+            # deleted), to the same target, which is left as the failed attempt left it
+            if rng.random() < 0.7:
+                if rng.random() < 0.5 and tm.nrows > 2:
+                    g.emit({"op": "del_row", "d": d, "s": s, "t": t, "n": max(1, tm.nrows // 2)})
+                else:
+                    for _ in range(rng.randint(1, 4)):
+                        g.emit({"op": "write", "d": d, "s": s, "t": t, "r": g.index(tm.nrows), "c": g.index(tm.ncols), "v": V.enc(rng.choice(["", "s", 1]))})
+            g.emit({"op": "save", "d": d, "slot": o["slot"], "wipe": False})
+            g.emit({"op": "restart", "d": d, "slot": o["slot"]})
         if rng.random() < 0.3:
             g.emit({"op": "save", "d": d, "slot": rng.choice(ALL_SLOTS)})
     elif kind == "restart":
@@ -190,7 +216,7 @@ def gen(seed: int, tier: str, idx=None):
                 g.emit({"op": "save", "d": 0, "slot": slots[k]})
         cfg["multi_document"] = True
         return cfg, g.ops
-    fault_arm = rng0.random() < 0.3
+    fault_arm = rng0.random() < 0.4
     if rng0.random() < 0.2:
         g.emit({"op": "open_fixture", "name": rng0.choice([k for k in FIX_QUICK if (_SURVEY[k].get("cells") or 0) <= 400])})
     else:
